@@ -4,7 +4,6 @@ CONSTANTS
   K = 0
   Rounds = {0}
   Vals = {0}
-  MaxPos = 0
   MutInCursor = TRUE
 INVARIANT AtEnd
 CHECK_DEADLOCK FALSE
